@@ -254,3 +254,75 @@ Section StreamServer.
     exists st. split; [exact H1|]. split; [exact H2|]. rewrite H3. reflexivity.
   Qed.
 End StreamServer.
+
+(* ---------- streamed responses, field by field (status, cookies, raw headers in order, body) ---------- *)
+Section StreamFields.
+  Variable code : N.
+  Variable hs : list (bytes * bytes).
+  Variable cks : list (bytes * (bytes * bytes)).
+  Let effs := [SetCode (Z.of_N code)] ++ flat_map snd (stream_lines hs cks).
+  Let m := apply msg_init effs.
+
+  Lemma stream_effs_split : effs =
+    [SetCode (Z.of_N code)] ++ flat_map sc_effs cks ++ flat_map snd (map plain_line hs)
+    ++ [AddTyped (idx "Transfer-Encoding") chunked; AddRaw (list_of_string "Transfer-Encoding") chunked].
+  Proof.
+    unfold effs, stream_lines. rewrite !flat_map_app. cbn [flat_map typed_line snd app]. f_equal. f_equal.
+    induction cks as [|c l IH]; [reflexivity|]. cbn [map flat_map]. rewrite IH. reflexivity.
+  Qed.
+
+  Lemma stream_cookies : m_cookies m = capply _ same_pair [] (map (fun ck : bytes * (bytes * bytes) => CIns (snd ck)) cks).
+  Proof.
+    unfold m. rewrite (apply_proj _ m_cookies (fun x e => capply1 _ same_pair x (v_cookies e))) by reflexivity.
+    rewrite <- (fold_left_map (capply1 _ same_pair) v_cookies). fold (capply _ same_pair (m_cookies msg_init) (map v_cookies effs)).
+    rewrite capply_view, stream_effs_split. rewrite !flat_map_app.
+    rewrite (keep_plain_none v_cookies) by reflexivity. cbn [flat_map keep v_cookies app msg_init m_cookies].
+    rewrite app_nil_r. f_equal.
+    induction cks as [|[c [k v]] l IH]; [reflexivity|]. cbn [flat_map sc_effs set_cookie_line snd fst app map]. rewrite IH. reflexivity.
+  Qed.
+
+  Lemma stream_raw : m_raw m = capply _ same_ci []
+    (map (fun h : bytes * bytes => CIns h)
+         (map (fun ck : bytes * (bytes * bytes) => (list_of_string "Set-Cookie", fst ck)) cks ++ hs
+          ++ [(list_of_string "Transfer-Encoding", chunked)])).
+  Proof.
+    unfold m. rewrite (apply_proj _ m_raw (fun x e => capply1 _ same_ci x (v_raw e))) by reflexivity.
+    rewrite <- (fold_left_map (capply1 _ same_ci) v_raw). fold (capply _ same_ci (m_raw msg_init) (map v_raw effs)).
+    rewrite capply_view, stream_effs_split. rewrite !flat_map_app.
+    rewrite keep_plain_raw. cbn [flat_map keep v_raw app msg_init m_raw]. rewrite !map_app. f_equal. f_equal.
+    induction cks as [|[c [k v]] l IH]; [reflexivity|]. cbn [flat_map sc_effs set_cookie_line snd fst app map keep v_raw]. rewrite IH. reflexivity.
+  Qed.
+
+  Lemma stream_code : m_code m = Z.of_N code.
+  Proof.
+    unfold m. rewrite (apply_proj _ m_code (fun x e => rapply1 _ x (v_code e))) by reflexivity. rewrite stream_effs_split.
+    rewrite !fold_left_app. cbn [fold_left rapply1 v_code].
+    rewrite (fold_nop v_code (flat_map sc_effs cks)).
+    2:{ induction cks as [|c l IH]; [constructor|]. cbn [flat_map sc_effs set_cookie_line snd app]. constructor; [reflexivity|]. constructor; [reflexivity|exact IH]. }
+    rewrite (fold_nop v_code (flat_map snd (map plain_line hs))) by (apply nop_plain; reflexivity).
+    reflexivity.
+  Qed.
+End StreamFields.
+
+(* Server -> client, streamed: status, cookies, headers (in the order ResponseStream writes them: Set-Cookie lines,
+   application headers, Transfer-Encoding) and the concatenated chunks. *)
+Theorem stream_response_fields typed_other set_cookie code hs cks chunks :
+  (code < 2147483648)%N -> Forall plain_header hs -> Forall (fun ck => cookie_ok set_cookie (fst ck) (snd ck)) cks ->
+  typed_ok typed_other "Transfer-Encoding" chunked ->
+  Forall (fun c => c <> [] /\ (Z.of_nat (length c) <= LONG_MAX)%Z) chunks ->
+  exists st,
+    whole typed_other set_cookie KResponse (render_stream code hs (map fst cks) chunks) = (PDone, st)
+    /\ p_cur st = length (render_stream code hs (map fst cks) chunks)
+    /\ m_code (p_msg st) = Z.of_N code
+    /\ m_cookies (p_msg st) = capply _ same_pair [] (map (fun ck : bytes * (bytes * bytes) => CIns (snd ck)) cks)
+    /\ m_raw (p_msg st) = capply _ same_ci []
+         (map (fun h : bytes * bytes => CIns h)
+              (map (fun ck : bytes * (bytes * bytes) => (list_of_string "Set-Cookie", fst ck)) cks ++ hs
+               ++ [(list_of_string "Transfer-Encoding", chunked)]))
+    /\ m_body (p_msg st) = concat chunks.
+Proof.
+  intros Hc Hhs Hck Hte Hch.
+  destruct (stream_response_roundtrip typed_other set_cookie code hs cks chunks Hc Hhs Hck Hte Hch) as [st [H1 [H2 H3]]].
+  exists st. split; [exact H1|]. split; [exact H2|]. rewrite H3. unfold set_body. cbn [m_code m_cookies m_raw m_body].
+  repeat split; [apply stream_code|apply stream_cookies|apply stream_raw].
+Qed.
